@@ -232,3 +232,55 @@ def check_C19(tier, seed):
     v.assumptions.append("validation data: none / correct / wrong checksum / wrong size under SHA-256; "
                          "non-default algorithms and letter case are swept by the C06 table check")
     return v.finish()
+
+
+def _judge_simple(module, cfg_file, records, workers=16):
+    """Flat records judged by a constant-free trace spec (cfg file in spec/)."""
+    import os, shutil
+    from . import tlc
+    work = os.path.join(tlc.scratch_root(), "simple.%d" % os.getpid())
+    os.makedirs(work, exist_ok=True)
+    tf = os.path.join(work, "obs.json")
+    with open(tf, "w") as f:
+        json.dump({"records": records}, f)
+    r = tlc.run_tlc(module, cfg_file=cfg_file, workers=workers, env={"TRACE_FILE": tf})
+    shutil.rmtree(work, ignore_errors=True)
+    judged = r.printed("JUDGED")
+    if not r.ok or not judged or judged[0].split()[0] != str(len(records)):
+        raise RuntimeError("%s did not judge everything (%s of %d)\n%s"
+                           % (module, judged, len(records), r.out[-3000:]))
+    return [(l.split()[0], int(l.split()[1])) for l in r.printed("VIOL")], r
+
+
+def check_C14(tier, seed):
+    from . import configcheck, tlc
+    v = Verdict("C14", tier, seed, "model_checking")
+    mc = tlc.run_tlc("MCConfig", cfg_file="MCConfig.cfg", workers=16)
+    if not mc.ok:
+        v.machinery("MCConfig failed: %s" % mc.errors[:2])
+    records = configcheck.run(tier, seed)
+    viol, r = _judge_simple("TraceConfig", "TraceConfig.cfg", records)
+    for name, k in viol:
+        rec = records[k - 1]
+        s = rec["supplied"]
+        desc = {"clause": name, "dirstate": rec["dirstate"], "defect": s["defect"],
+                "accepted": rec["accepted"], "fs": rec["fs"],
+                "differs": sorted(key for key in ("depth", "width", "algo", "ns")
+                                  if (s[key]["v"] if isinstance(s[key], dict) else s[key]) != rec["made"][key])
+                if rec["dirstate"] == "created" else None,
+                "algo": s["algo"]}
+        v.violation(desc, {"kind": "config", "clause": name, "record": rec,
+                           "how": "create a store with `made` (dirstate created), then open it with `supplied`"})
+    import collections
+    v.coverage.update({
+        "states": mc.distinct, "transitions": mc.generated,
+        "traces_validated_against_impl": len(records),
+        "attempts_by_dirstate": dict(collections.Counter(r_["dirstate"] for r_ in records)),
+        "accepted": sum(1 for r_ in records if r_["accepted"]),
+        "refused": sum(1 for r_ in records if not r_["accepted"]),
+        "populated_store_attempts": sum(1 for r_ in records if r_["populated"]),
+        "exhaustive": tier == "thorough",
+        "samples": [records[0], records[len(records) // 2]],
+        "checker_cmd": "tlc MCConfig (all creation x reopening pairs of the decision table) ; tlc TraceConfig"})
+    v.assumptions.append("depth 1-5, width 1-4, five DataONE algorithm names + 7 other spellings/unsupported names, 2 namespaces, int/str encodings, 12 malformations")
+    return v.finish()
